@@ -4,8 +4,12 @@
 //
 //   case <id>                          reset                                       -> ok
 //   cont kind=<k> [sep=<c>] [pair=<s>] clear=0|1 sort=0|1 unique=none|drop|error multi=0|1
-//        [init=<a,b,c>] [check=<spec>]* [fmt=upper|lower]
+//        [init=<a,b,c>] [check=<spec>]* [fmt=upper|lower] [fmtpos=<idx>:<upper|lower>,<idx>:<upper|lower>,...]
 //                                      remembers the configuration, builds it once -> ok | throw <class>
+//                                      options are applied in the order pair, sep, clear, sort, unique, multi,
+//                                      checks, fmt (addFormat), fmtpos (one addFormatPos( idx, uppercase()/
+//                                      lowercase()) per entry, in the order given; idx decimal >= 0, the same idx
+//                                      may appear more than once); an unparsable fmtpos -> bad-op
 //   eval <argv words...>               fresh destination + handler from the configuration, runs the real
 //                                      Handler::evalArguments                      -> ok <content> | throw <class> <content>
 //   evalref <argv words...>            same as eval; its result becomes the reference of this `cont`
@@ -51,6 +55,7 @@ struct Config {
    std::vector<std::string> init;
    std::vector<std::string> checks;
    std::string fmt;
+   std::vector<std::pair<int, bool>> fmtPos;   // (idx, upper?) = the addFormatPos calls in order
 };
 
 std::vector<std::string> splitList(const std::string& s, char c) {
@@ -62,6 +67,20 @@ std::vector<std::string> splitList(const std::string& s, char c) {
    }
    out.push_back(cur);
    return out;
+}
+
+/// `<idx>:<upper|lower>,...`, idx decimal (at most 6 digits)
+bool parseFmtPos(const std::string& s, std::vector<std::pair<int, bool>>& out) {
+   if (s.empty() || s == "-") return false;
+   for (auto& e : splitList(s, ',')) {
+      size_t p = e.find(':');
+      if (p == std::string::npos || p == 0 || p > 6) return false;
+      for (size_t i = 0; i < p; ++i) if (e[i] < '0' || e[i] > '9') return false;
+      std::string f = e.substr(p + 1);
+      if (f != "upper" && f != "lower") return false;
+      out.push_back({std::stoi(e.substr(0, p)), f == "upper"});
+   }
+   return true;
 }
 
 bool parseConfig(const std::vector<std::string>& toks, Config& c) {
@@ -83,6 +102,7 @@ bool parseConfig(const std::vector<std::string>& toks, Config& c) {
       else if (t.compare(0, 5, "init=") == 0) c.init = splitList(t.substr(5), ',');
       else if (t.compare(0, 6, "check=") == 0) c.checks.push_back(t.substr(6));
       else if (t.compare(0, 4, "fmt=") == 0) c.fmt = t.substr(4);
+      else if (t.compare(0, 7, "fmtpos=") == 0) { if (!parseFmtPos(t.substr(7), c.fmtPos)) return false; }
    }
    return !c.kind.empty();
 }
@@ -120,6 +140,10 @@ void applyOptions(TypedArgBase* a, const Config& c) {
    }
    if (c.fmt == "upper") a->addFormat(celma::prog_args::uppercase());
    else if (c.fmt == "lower") a->addFormat(celma::prog_args::lowercase());
+   for (auto& fp : c.fmtPos) {
+      if (fp.second) a->addFormatPos(fp.first, celma::prog_args::uppercase());
+      else a->addFormatPos(fp.first, celma::prog_args::lowercase());
+   }
 }
 
 /// runs the real evalArguments on the words; returns "" or "throw <class>"
